@@ -111,7 +111,11 @@ CallFailed(props, cfg, S, e) ==
                [] alg = "rr"  -> Cardinality(V) = 1
                [] OTHER       -> TRUE
   IN
-  IF class \in {"hit", "load", "miss"} THEN
+  IF "rfault" \in DOMAIN e THEN
+     \* the harness made the archive's next READ fail while this call's result is archived and not resident: whatever
+     \* the call does about the failure, the function must not be evaluated - its result is in the archive
+       Chk(props, "C02", "C02.NoEvaluationWhileArchived", class = "load" => e.ev = <<>>)
+  ELSE IF class \in {"hit", "load", "miss"} THEN
        Chk(props, "C01", "C01.Ret", e.exc = "none" /\ e.ret = val)
   \cup Chk(props, "C01", "C01.MemSound", \A kk \in 1..cfg.nk : mem2[kk] \in {0, cfg.fk[kk]})
   \cup Chk(props, "C01", "C01.ArchSound", \A x \in 1..cfg.na : \A kk \in 1..cfg.nk : e.archs[x][kk] \in {0, cfg.fk[kk]})
@@ -280,7 +284,8 @@ GhostAfter(cfg, S, e) ==
   LET i == e.i
       g == S.g[i]
   IN
-  IF e.op = "call" THEN
+  IF e.op = "call" /\ "rfault" \in DOMAIN e /\ e.exc # "none" THEN S.g   \* the call failed on the injected fault
+  ELSE IF e.op = "call" THEN
      LET a == e.a
          k == cfg.keyof[a]
          class == CallClass(cfg, S, i, a)
@@ -306,7 +311,9 @@ GhostAfter(cfg, S, e) ==
   ELSE IF e.op = "arch_off" THEN
      [S.g EXCEPT ![i] = [g EXCEPT !.parked = IF S.cur[i] # 0 THEN S.cur[i] ELSE g.parked, !.kept = {}]]
   ELSE IF e.op \in {"arch_on", "set_archive"} THEN
-     [S.g EXCEPT ![i] = [g EXCEPT !.parked = 0, !.kept = {}]]
+     \* from now on every resident entry must stay retrievable: when it leaves memory it has to reach the archive
+     \* that is bound NOW (entries that were only in the archive bound before are legitimately out of reach)
+     [S.g EXCEPT ![i] = [g EXCEPT !.parked = 0, !.kept = IF e.cur[i] # 0 THEN Dom(e.mem[i]) ELSE {}]]
   ELSE IF e.op = "clone" THEN
      [S.g EXCEPT ![e.j] = g]
   ELSE IF e.op \in {"lookup", "key"} THEN
